@@ -17,7 +17,9 @@ CHECKS["C01"] = dict(
           "repetition, and honest logs are pairwise prefix-related. Non-trivial = some honest replica committed and at least "
           "one fault occurred (drop, partition, timeout, duplicate, scenario drop, twin, actor message); distinct = config+schedule. "
           "TestC01FastAggregate focuses the same oracle on Fast-HotStuff with frequent timeouts and an actor that replays old "
-          "aggregate QCs, withholds / releases proposals and equivocates after view changes."),
+          "aggregate QCs, withholds / releases proposals and equivocates after view changes. TestC01TwinsEnumerated runs ALL "
+          "scenarios of the repository's own Twins generator for 4 replicas, 1 twin pair, 2 partitions and 3 views (5,832; quick) / "
+          "4 views (104,976; thorough) x 3 rulesets x 1 / 3 non-lock-step delivery schedules (exhaustive in the scenario dimension)."),
     assumptions=["the simulator's sender/clock/crypto-tap edges and the fast keyed-hash base are trusted",
                  "schedules are sampled; n limited to {4,7}; the event-queue overflow of production (capacity 100) is not modelled"],
 )
